@@ -383,6 +383,7 @@ func pubOf(k *signKey) interface{} {
 func familyJwt(t *testing.T) {
 	rng := T.rng
 	synctest.Test(t, func(t *testing.T) {
+		defer guard()
 		K := keys()
 		keySets := [][]string{{"rsa2048a", "p256a", "rsa2048b", "p384"}, {"p521", "rsa3072", "p256b"}}
 		if T.thorough() {
